@@ -52,7 +52,8 @@ Buildable == q.style \in {"sa-select", "sa-legacy", "dj-queryset"} /\ q.applied 
 BaseWhere == /\ Buildable /\ Len(q.wheres) = 0
              /\ \E c \in DOMAIN BaseConds : q' = [q EXCEPT !.wheres = Append(@, c)] /\ steps' = Append(steps, <<"where", c>>)
 BaseJoin == /\ Buildable /\ Len(q.joins) = 0 /\ q.style # "dj-queryset"
-            /\ \E j \in {"author-inner", "author-outer"} : q' = [q EXCEPT !.joins = Append(@, j)] /\ steps' = Append(steps, <<"join", j>>)
+            /\ \E j \in {"author-inner", "author-outer", "info-inner", "info-outer"} :
+                 q' = [q EXCEPT !.joins = Append(@, j)] /\ steps' = Append(steps, <<"join", j>>)
 BaseOrder == /\ Buildable /\ q.order = "none"
              /\ q' = [q EXCEPT !.order = "id-desc"] /\ steps' = Append(steps, <<"order", "id-desc">>)
 BaseAnnotate == /\ Buildable /\ ~q.annot
@@ -63,9 +64,10 @@ Next == PickStyle \/ BaseWhere \/ BaseJoin \/ BaseOrder \/ BaseAnnotate \/ Apply
 IsCase == q.applied # 0
 
 \* ---- meaning
-InnerJoined == \E i \in 1..Len(q.joins) : q.joins[i] = "author-inner"
+InnerJoined(rel) == \E i \in 1..Len(q.joins) : q.joins[i] = rel
 BaseOk(r) == /\ \A i \in 1..Len(q.wheres) : EvalR(DB, [k \in {""} |-> <<"Post", r>>], BaseConds[q.wheres[i]]) = TRUEV
-             /\ (InnerJoined => r.author # NULL)
+             /\ (InnerJoined("author-inner") => r.author # NULL)
+             /\ (InnerJoined("info-inner") => r.info # NULL)
 BaseRows == { r.id : r \in { x \in DB["Post"] : BaseOk(x) } }
 ResultRows == { r.id : r \in { x \in DB["Post"] : BaseOk(x) /\ EvalR(DB, [k \in {""} |-> <<"Post", x>>], Filters[q.applied]) = TRUEV } }
 \* joins the result must contain: the host's, plus "author" exactly once if the filter navigates it (SQLAlchemy)
@@ -75,7 +77,8 @@ ResultSubsetOfBase == IsCase => ResultRows \subseteq BaseRows
 Export == PrintT(ToJson(IF IsCase
             THEN [k |-> "case", style |-> q.style, steps |-> steps, filter |-> TextOf(Pr(Filters[q.applied], "min"), SP),
                   base |-> BaseRows, expected |-> ResultRows, ordered |-> q.order # "none", annot |-> q.annot,
-                  needs_author |-> NeedsAuthor, host_joined |-> Len(q.joins) > 0]
+                  needs_author |-> NeedsAuthor,
+                  host_joined |-> (\E i \in 1..Len(q.joins) : q.joins[i] \in {"author-inner", "author-outer"})]
             ELSE IF q = Empty THEN [k |-> "db", db |-> DB]
             ELSE [k |-> "partial"]))
 =============================================================================
